@@ -56,8 +56,21 @@ structure Typed where
   val : PyVal
   deriving DecidableEq, Repr
 
+/-- `int(x)` for a float given by its IEEE-754 binary64 pattern: truncation toward zero; NaN (ValueError)
+and the infinities (OverflowError) answer `none`. -/
+def dblTrunc (bits : Nat) : Option Int :=
+  let neg := bits / 9223372036854775808 % 2 = 1
+  let e := bits / 4503599627370496 % 2048
+  let m := bits % 4503599627370496
+  if e = 2047 then none
+  else
+    let mant := if e = 0 then m else m + 4503599627370496
+    let e' := if e = 0 then 1 else e
+    let mag : Nat := if e' ≥ 1075 then mant * 2 ^ (e' - 1075) else mant / 2 ^ (1075 - e')
+    some (if neg then -(Int.ofNat mag) else Int.ofNat mag)
+
 /-- `int(v)` on the generated domain (a `str` argument: non-empty ASCII digits only, anything else is the
-`ValueError` branch; `float` arguments are not generated). -/
+`ValueError` branch). -/
 def pyInt : PyVal → Option Int
   | .int n => some n
   | .bool b => some (if b then 1 else 0)
@@ -65,17 +78,26 @@ def pyInt : PyVal → Option Int
     if s ≠ [] ∧ s.all (fun c => '0' ≤ c ∧ c ≤ '9') then
       some (Int.ofNat (s.foldl (fun acc c => acc * 10 + (c.toNat - '0'.toNat)) 0))
     else none
+  | .dbl b => dblTrunc b
   | _ => none
 
 def natRepr (n : Nat) : Str := (Nat.repr n).toList
 
-/-- `str(v)` on the generated domain (`float` and `list` arguments are not generated). -/
+/-- `repr(s)` is `'` ++ s ++ `'` for these strings (printable ASCII without quote or backslash). -/
+def simpleStr (s : Str) : Bool :=
+  s.all fun c => 32 ≤ c.toNat ∧ c.toNat < 127 ∧ c ≠ '\'' ∧ c ≠ '"' ∧ c ≠ '\\'
+
+/-- `str(v)` on the generated domain (`float` arguments are not generated; a list only of simple strings). -/
 def pyStr : PyVal → Option Str
   | .str s => some s
   | .int n => some (if n < 0 then '-' :: natRepr n.natAbs else natRepr n.natAbs)
   | .bool b => some (if b then "True".toList else "False".toList)
   | .none => some "None".toList
-  | _ => none
+  | .strs l =>
+    if l.all simpleStr then
+      some ('[' :: (", ".toList.intercalate (l.map fun s => '\'' :: (s ++ ['\'']))) ++ [']'])
+    else none
+  | .dbl _ => none
 
 def classOf (c : Char) : Option (String × Char) := dget Gen.C17Props.classMap c
 
@@ -108,14 +130,33 @@ def sigFromPy (t : Typed) : Option Str :=
     | .strs [] => some ['a', 'v']
     | .strs (_ :: _) => some ['a', 's']
 
-def intRange : Char → Option (Int × Int)
-  | 'y' => some (0, 255)
-  | 'n' => some (-32768, 32767)
-  | 'q' => some (0, 65535)
-  | 'i' => some (-2147483648, 2147483647)
-  | 'u' => some (0, 4294967295)
-  | 'x' => some (-9223372036854775808, 9223372036854775807)
-  | 't' => some (0, 18446744073709551615)
+/-- The DBus types the model knows how to marshal (the keys of `marshal.marshallers` it mirrors). -/
+inductive DTy where
+  | y | n | q | i | u | x | t | b | d | s | o | g | as | av | v
+  deriving DecidableEq, Repr
+
+/-- Dispatch on the signature (`marshallers[ct[0]]` with the element type for arrays). -/
+def DTy.ofSig : Str → Option DTy
+  | ['y'] => some .y | ['n'] => some .n | ['q'] => some .q | ['i'] => some .i | ['u'] => some .u
+  | ['x'] => some .x | ['t'] => some .t | ['b'] => some .b | ['d'] => some .d | ['s'] => some .s
+  | ['o'] => some .o | ['g'] => some .g | ['a', 's'] => some .as | ['a', 'v'] => some .av
+  | ['v'] => some .v
+  | _ => none
+
+def DTy.render : DTy → Str
+  | .y => ['y'] | .n => ['n'] | .q => ['q'] | .i => ['i'] | .u => ['u'] | .x => ['x'] | .t => ['t']
+  | .b => ['b'] | .d => ['d'] | .s => ['s'] | .o => ['o'] | .g => ['g'] | .as => ['a', 's']
+  | .av => ['a', 'v'] | .v => ['v']
+
+/-- Range accepted by `struct.pack` for the integer formats. -/
+def DTy.intRange : DTy → Option (Int × Int)
+  | .y => some (0, 255)
+  | .n => some (-32768, 32767)
+  | .q => some (0, 65535)
+  | .i => some (-2147483648, 2147483647)
+  | .u => some (0, 4294967295)
+  | .x => some (-9223372036854775808, 9223372036854775807)
+  | .t => some (0, 18446744073709551615)
   | _ => none
 
 def inRanges (rs : List (Nat × Nat)) (n : Nat) : Bool := rs.any fun r => r.1 ≤ n ∧ n ≤ r.2
@@ -143,47 +184,50 @@ def truthy : PyVal → Bool
   | .dbl bits => bits % 9223372036854775808 ≠ 0
   | .strs l => l ≠ []
 
-/-- `marshal.marshal(sig, [v])` for the non-variant signatures of the model, answering the value a peer
-decodes (`none`: the marshaller raises, or the signature is outside the model).  `struct.pack` accepts a
-`bool` for the integer formats; a `float` only for 'd' (an `int` for 'd' is never reached: inference
-never picks 'd' for it and the Set check tests the Python type first). -/
-def marshalPlain (sig : Str) (v : PyVal) : Option PyVal :=
-  match sig with
-  | ['b'] => some (.bool (truthy v))
-  | ['d'] => match v with
+/-- One marshaller applied to a value, answering the value a peer decodes (`none`: it raises).
+`struct.pack` accepts a `bool` for the integer formats; a `float` only for 'd' (an `int` for 'd' is never
+reached: inference never picks 'd' for it and the Set check tests the Python type first).  The variant
+marshaller is `encodeVariant` below. -/
+def marshalTy (ty : DTy) (v : PyVal) : Option PyVal :=
+  match ty with
+  | .b => some (.bool (truthy v))
+  | .d => match v with
     | .dbl b => some (.dbl b)
     | _ => none
-  | ['s'] => match v with
+  | .s => match v with
     | .str s => if noNul s then some (.str s) else none
     | _ => none
-  | ['o'] => match v with
+  | .o => match v with
     | .str s => if pathOk s && noNul s then some (.str s) else none
     | _ => none
-  | ['g'] => match v with
+  | .g => match v with
     | .str s => if s.all (fun c => c.toNat < 128) && s.length ≤ 255 then some (.str s) else none
     | _ => none
-  | ['a', 's'] => match v with
+  | .as => match v with
     | .strs l => if l.all noNul then some (.strs l) else none
     | _ => none
-  | ['a', 'v'] => match v with
+  | .av => match v with
     | .strs [] => some (.strs [])
     | _ => none
-  | [c] =>
-    match intRange c with
+  | .v => none
+  | ty =>
+    match ty.intRange with
     | some (lo, hi) =>
       match v with
       | .int n => if lo ≤ n ∧ n ≤ hi then some (.int n) else none
       | .bool b => some (.int (if b then 1 else 0))
       | _ => none
     | none => none
-  | _ => none
+
+/-- `marshal.marshal(sig, [v])` for the non-variant signatures of the model (`none`: the marshaller
+raises, or the signature is outside the model). -/
+def marshalPlain (sig : Str) (v : PyVal) : Option PyVal :=
+  (DTy.ofSig sig).bind fun ty => marshalTy ty v
 
 /-- `marshal_variant`: the signature is inferred from the Python value, then the value is marshalled
 with it.  Answers (signature carried by the variant, decoded value). -/
-def encodeVariant (t : Typed) : Option (Str × PyVal) := do
-  let s ← sigFromPy t
-  let w ← marshalPlain s t.val
-  pure (s, w)
+def encodeVariant (t : Typed) : Option (Str × PyVal) :=
+  (sigFromPy t).bind fun s => (marshalPlain s t.val).map fun w => (s, w)
 
 /-- `marshal.marshal(sig, [v])` including the declared signature 'v'. -/
 def marshalAs (sig : Str) (v : PyVal) : Option PyVal :=
@@ -268,7 +312,7 @@ def mkProp (r : RawProp) : Option PropDef :=
 structure IfaceDef where
   name : Str
   props : List (Str × PropDef)
-  deriving Repr
+  deriving DecidableEq, Repr
 
 /-- `DBusInterface(name, *properties)` (`addProperty` in argument order); `none`: a Property constructor
 raised TypeError. -/
@@ -313,12 +357,12 @@ def lookupProp (ifs : List IfaceDef) (i p : Str) : Option PropDef :=
 /-- The `DBusProperty` branch of `_cacheInterfaces`.  `none`: the AttributeError ("No supported DBus
 interfaces contain a property named ..."), the KeyError of `iface.properties[obj.pname]`, or a named
 interface the object does not have (iprop stays None) - declarations outside the model. -/
-def bindDesc (ifs : List IfaceDef) (d : Desc) : Option Bound := do
-  let iname ← match d.iface with
+def bindDesc (ifs : List IfaceDef) (d : Desc) : Option Bound :=
+  (match d.iface with
     | some i => some i
-    | none => (ifs.find? fun f => (dget f.props d.pname).isSome).map (·.name)
-  let ip ← lookupProp ifs iname d.pname
-  pure ⟨d.attr, d.pname, iname, ip⟩
+    | none => (ifs.find? fun (f : IfaceDef) => (dget f.props d.pname).isSome).map
+        fun (f : IfaceDef) => f.name).bind fun iname =>
+  (lookupProp ifs iname d.pname).map fun ip => ⟨d.attr, d.pname, iname, ip⟩
 
 /-- One class's `_dbusIfaceCache`, properties only: interface name -> (`_IfaceCache.properties`). -/
 abbrev IfCache := List (Str × List (Str × Bound))
@@ -337,7 +381,7 @@ structure World where
   ifaces : List IfaceDef
   levels : List (List Bound)
   caches : List IfCache
-  deriving Repr
+  deriving DecidableEq, Repr
 
 def elaborate (D : Decls) : Option World :=
   (D.mapM fun (c : ClassDef) => c.descs.mapM (bindDesc (getInterfaces D))).map fun lv =>
@@ -449,10 +493,9 @@ def descSet (cfg : Cfg) (st : St) (o : Nat) (b : Bound) (v : PyVal) : St × List
 def addp (cfg : Cfg) (W : World) (st : St) (o : Nat) (r : List (Str × Typed)) (b : Bound) :
     Option (List (Str × Typed)) :=
   if b.iprop.access = .write then some r
-  else do
-    let v ← getattrProp cfg W st o b.attr
-    let t ← castClass b.iprop.sig v
-    pure (dset r b.pname t)
+  else
+    (getattrProp cfg W st o b.attr).bind fun v =>
+      (castClass b.iprop.sig v).map fun t => dset r b.pname t
 
 /-- The repaired loop body: `if p.pname not in r: addp(p)`. -/
 def addpNew (cfg : Cfg) (W : World) (st : St) (o : Nat) (r : List (Str × Typed)) (e : Str × Bound) :
@@ -511,7 +554,7 @@ def step (cfg : Cfg) (W : World) (st : St) : Op → St × List Out
   | .export o => ({ st with attached := if o ∈ st.attached then st.attached else o :: st.attached }, [.done])
   | .assign o a v =>
     match resolveAttr W a with
-    | none => (st, [.err .noAttr])
+    | none => (st, [.done])     -- an ordinary instance attribute
     | some b =>
       match descSet cfg st o b v with
       | (st', outs, false) => (st', outs ++ [.done])
